@@ -207,15 +207,23 @@ def gen_table(rng, n, tier):
     for k in range(n):
         g = gen_graph(rng, small=(k % 2 == 0))
         cut = rng.choice([0, 1, 2, 3, 5, 8, 13, 0.5, 2.5, 1e300, -1, -2.5])      # a negative cut-off: no distance is that small, the table is empty
-        cases.append({'edges': g, 'cut': cut, 'pre': rand_pre(rng, True), 'ids': rng.choice(['int', 'int', 'str', 'blank'])})
+        cases.append({'edges': g, 'cut': cut, 'pre': rand_pre(rng, True), 'ids': rng.choice(['int', 'int', 'str', 'blank']), 'via': rng.choice([None, None, 'prepare', 'twice'])})
     return cases
 
 
 def run_table(case):
     net = build_net(case['edges'], case.get('ids', 'int'), is_geo(case))
     use_subnet(net, case)
-    d = net.all_shortest_distances(cut=case['cut'])
-    net.DISTANCES = d
+    if case.get('via') in ('prepare', 'twice') and not (case.get('pre') and case['pre'][0] == 'prep'):      # (not after an earlier preparation with another cut-off: a smaller cut-off does not shrink a table)
+        # the table built by the network's own prepare(): once, or a second time with a larger cut-off after a first preparation with a smaller one (the table then
+        # holds exactly the pairs within the new cut-off)
+        if case['via'] == 'twice' and case['cut'] > 0:
+            net.prepare(cut=min(case['cut'] / 2.0, 1.0), verbose=False)
+        net.prepare(cut=case['cut'], verbose=False)
+        d = net.DISTANCES
+    else:
+        d = net.all_shortest_distances(cut=case['cut'])
+        net.DISTANCES = d
     nodes = sorted(net.NODES)
     prep = {'%d,%d' % (s, t): net.prepared_shortest_distance(s, t) for s in nodes for t in nodes}
     return {'table': sorted([[k[0], k[1], v] for k, v in d.items()]), 'prep': prep}
